@@ -73,6 +73,17 @@ func (s *Sess) fact(f string) {
 	s.facts = append(s.facts, f)
 }
 
+// hint: a derived fact that is only useful when symbol sym occurs elsewhere in
+// the query; it is dropped from queries that never mention sym.
+const hintMark = ";hint:"
+
+func (s *Sess) hint(sym, f string) {
+	if f == "" || f == "true" {
+		return
+	}
+	s.facts = append(s.facts, hintMark+sym+";"+f)
+}
+
 func sanitize(s string) string {
 	var b strings.Builder
 	for _, r := range s {
@@ -311,9 +322,17 @@ func mapSorts(sort string) (string, string) {
 
 func (s *Sess) fnMem(elem string) string {
 	name := "mem_" + sanitize(elem)
-	s.decl("fn:"+name, fmt.Sprintf(
-		"(define-fun %s ((s (GSeq %s)) (x %s)) Bool (exists ((i Int)) (and (<= 0 i) (< i (sq.len s)) (= (select (sq.arr s) i) x))))",
-		name, elem, elem))
+	idx := "idx_" + sanitize(elem)
+	// membership is an uninterpreted predicate tied to the sequence by a
+	// Skolemised definition (witness function idx), so that mem(s,x) terms can
+	// serve as instantiation triggers
+	s.decl("fn:"+name, hintMark+name+";"+fmt.Sprintf(
+		"(declare-fun %s ((GSeq %s) %s) Bool)\n(declare-fun %s ((GSeq %s) %s) Int)\n"+
+			"(assert (forall ((s (GSeq %s)) (i Int)) (! (=> (and (<= 0 i) (< i (sq.len s))) (%s s (select (sq.arr s) i))) :pattern ((select (sq.arr s) i)))))\n"+
+			"(assert (forall ((s (GSeq %s)) (x %s)) (! (=> (%s s x) (and (<= 0 (%s s x)) (< (%s s x) (sq.len s)) (= (select (sq.arr s) (%s s x)) x))) :pattern ((%s s x)))))",
+		name, elem, elem, idx, elem, elem,
+		elem, name,
+		elem, elem, name, idx, idx, idx, name))
 	return name
 }
 
@@ -554,11 +573,62 @@ func firstLines(s string, n int) string {
 func writeQuery(dir, name string, decls, facts []string, goal string, wantModel bool) (string, error) {
 	var b strings.Builder
 	b.WriteString(preludeSMT)
+	declHints := map[int]bool{}
+	var dtxt strings.Builder
 	for _, d := range decls {
+		if !strings.HasPrefix(d, hintMark) {
+			dtxt.WriteString(d)
+		}
+	}
+	{
+		var plain strings.Builder
+		plain.WriteString(goal)
+		for _, f := range facts {
+			if !strings.HasPrefix(f, hintMark) {
+				plain.WriteString(f)
+			}
+		}
+		ptxt := plain.String() + dtxt.String()
+		for i, d := range decls {
+			if strings.HasPrefix(d, hintMark) {
+				rest := d[len(hintMark):]
+				k := strings.Index(rest, ";")
+				if strings.Contains(ptxt, "("+rest[:k]+" ") {
+					declHints[i] = true
+				}
+			}
+		}
+	}
+	for i, d := range decls {
+		if strings.HasPrefix(d, hintMark) {
+			if !declHints[i] {
+				continue
+			}
+			rest := d[len(hintMark):]
+			d = rest[strings.Index(rest, ";")+1:]
+		}
 		b.WriteString(d)
 		b.WriteByte('\n')
 	}
+	// hints are kept only if their symbol is used by the goal or a plain fact
+	var plain strings.Builder
+	plain.WriteString(goal)
 	for _, f := range facts {
+		if !strings.HasPrefix(f, hintMark) {
+			plain.WriteString(f)
+		}
+	}
+	ptxt := plain.String() + dtxt.String()
+	for _, f := range facts {
+		if strings.HasPrefix(f, hintMark) {
+			rest := f[len(hintMark):]
+			k := strings.Index(rest, ";")
+			sym, body := rest[:k], rest[k+1:]
+			if !strings.Contains(ptxt, "("+sym+" ") {
+				continue
+			}
+			f = body
+		}
 		b.WriteString("(assert ")
 		b.WriteString(f)
 		b.WriteString(")\n")
